@@ -302,6 +302,30 @@ for _p, _t in _EXTRA8.items():
     if _p in CLAIMS:
         t, n, te, r = CLAIMS[_p]
         CLAIMS[_p] = (t + _t, n, te, r)
+_EXTRA9 = {
+ "C01": " Ninth round: (R-TMPKIND-1) a temporary-table existence test takes the name as written, never a path that came out of the alias map — genuine defect repaired (UPDATE / DELETE of a file wrote into a temporary table declared under the file's path).",
+ "C02": " Ninth round: (R-FMT-15) every loader records each dialect field that the encoder of its format writes back (genuine defect repaired: the JSON loaders forgot the line break); (R-FMT-16) EncodeView writes into a table file or a buffer of the caller, never straight into a session stream (genuine defect repaired: a refused result left its first rows in the --out file); (R-FMT-17) a created table takes every dialect attribute that ExportOptions feeds back from the export options; R-TXN-3 registered (a table the encoder refuses reaches no swap and no success return). Also repaired, without a rule yet: fixed-length output with fewer delimiter positions than fields dropped the others silently.",
+ "C03": " Ninth round: (R-SET-3) every success return of a set-combining function passes the operator dispatch (genuine defect repaired: recursive UNION with an empty first step); (R-GRP-1) the implicit group of a query without GROUP BY is formed whatever the input and has a record; R-CMP-3 registered (a shortcut in front of the coercion ladder changes the rows WHERE / ON keep).",
+ "C04": " Ninth round: (R-GRP-1) the implicit group exists for every input, also the empty one — genuine defect repaired (HAVING was not applied to the empty group); (R-SET-3); (R-SRT-12) every row-indexed field of a view built over RecordSet[lo:hi] is unset or cut from the same lower bound; (R-KEY-8) SortValues.Serialize agrees with EquivalentTo on every pair of sort-value types — guards the repair of PARTITION BY over 1 / 1.0.",
+ "C05": " Ninth round: R-ISO-5 registered (a multi-table UPDATE / DELETE has no failing exit between two of its publications).",
+ "C06": " Ninth round: R-ERR-10 registered (a float is turned into an integer only where its class was tested).",
+ "C07": " Ninth round: (R-SRT-10) SortValue.Less over NewSortValue(a), NewSortValue(b) agrees with CompareCombinedly(a, b) wherever the operators order two texts — genuine defect repaired (a text column holding words that read as booleans or datetimes was left unsorted); (R-SRT-11) the arrays the comparator reads at one index are filled in lock-step; (R-SRT-12); (R-SRT-13) ties are decided by the comparator, never by a serialized key.",
+ "C08": " Ninth round: (R-ISO-8) a statement that was applied returns no error: in ExecuteStatement nothing can fail after a statement function has returned without error; (R-INPL-1) no in-place write of a value list the writer's call chain did not allocate; (R-PATH-3) a resolved file path is not case-folded into an identity — known finding K10 (t.csv / T.csv share one cache entry; the pinned tests spell the folded key).",
+ "C09": " Ninth round: (R-LOCK-11) the reader check answers 'no reader' only after the whole directory listing was examined; (R-LOCK-12) every failure of an exclusive create is answered with the error kind the wait loop retries on, independent of a later file-system probe.",
+ "C10": " Ninth round: (R-PATH-3) known finding K10 (an UPDATE of T.csv commits into t.csv).",
+ "C11": " Ninth round: (R-CLEAN-9) a control file that was created is returned, stored into the handler or released on every path — never lost; R-TXN-1 registered (EXIT ends a procedure without commit).",
+ "C14": " Ninth round: (R-BIND-1) an expression slot that enters a context holds literals bound once by an evaluating binder — genuine defect repaired (USING values were evaluated again at every placeholder occurrence and row); (R-INPL-1); (R-PROG-1) the fields of a stored program (UserDefinedFunction, PreparedStatement, the declaration of a Cursor) and the maps / slices read out of them are written only while the object is under construction.",
+ "C15": " Ninth round: R-SCP-9 corrected — a function body hands the Exit flow on as an error (the rule had frozen the defect; EXIT through EXECUTE / SOURCE inside a function only ended the call: repaired); (R-SCP-12) a file is looked up only under the 'not declared' branch of the temporary-table lookup of the same name; (R-PROG-1).",
+ "C16": " Ninth round: (R-CUR-12) cursor status table by abstract execution over closed / just opened / fetched: just opened answers UNKNOWN whatever the length; (R-BIND-1) OPEN … USING evaluates its values once; R-SCP-8 registered (a cursor declared in an IF / CASE arm ends with the arm).",
+ "C17": " Ninth round: (R-SRT-13) peer groups of the rank functions are decided by the comparator; (R-SRT-10/11/12), (R-KEY-8), (R-INPL-1); R-FIX-1 registered (a derived table does not hand the sort keys of other rows to the analytic functions of the outer query).",
+ "C18": " Ninth round: (R-SCAN-5) no function reachable from the scanner lies on a call cycle — genuine defect repaired (a run of comments overflowed the stack); (R-ESC-10) a grammar action that copies the spelling of an identifier into a node copies its Quoted flag with it — repaired; (R-ESC-11) a name the scanner classifies never passes through a Unicode case mapping in a printer — repaired. Also repaired without a rule: '! :a' printed as '!:a'.",
+ "C19": " Ninth round: (R-ERR-26, engine E16: goyacc grammar reader + dynamic-type flow through the syntax tree) every unchecked assertion to a syntax-tree type is applied to an operand whose dynamic type was tested or that every grammar action, literal and store of the program fills with that type — four genuine defects repaired ((SELECT 1, 2) = 3; `json_object`(1); SELECT 1 UNION (SELECT 1, 2); DELETE FROM (t)); R-ERR-7 enumerates all callers of a helper (SHOW CURSORS padding repaired); (R-TMPKIND-1); R-PAR-6 registered.",
+ "C20": " Ninth round: (R-PATH-3) known finding K10; (R-CACHE-7) every removal of a control file tolerates a file that is already gone, so a release cannot fail and leave the cache behind COMMIT / ROLLBACK.",
+}
+for _p, _t in _EXTRA9.items():
+    if _p in CLAIMS:
+        t, n, te, r = CLAIMS[_p]
+        CLAIMS[_p] = (t + _t, n, te, r)
 # Substrate rules (rules/zz_substrate.go): run with every property whose observable behaviour they protect.
 _SUBSTRATE = " Substrate (run with every value-level property, DESIGN §2.11): R-POOL-1/2/3/5 (no value object is returned to its pool while something still refers to it, none twice), R-PAR-1 (no unsynchronised conflicting access between worker goroutines), R-ALIAS-1 (no shared spare capacity), R-ISO-4 / R-AST-1 (no in-place write to cells or syntax trees that another holder shares)."
 for _p in ["C01","C02","C03","C04","C05","C06","C07","C08","C12","C13","C14","C15","C16","C17","C19","C20"]:
